@@ -586,7 +586,9 @@ func refTable(l map[string]string) string {
 }
 
 func mountPrefetch(l map[string]string, dflt int64) int64 {
-	// replica of the three lines in fs.Mount (fs/fs.go); checks/C20.py pins those lines.
+	// what the prefetch label means to a consumer that parses it with strconv.ParseInt(s, 10, 64) and
+	// falls back to its default; this ties the model's parseInt64 to the real strconv.  How fs.Mount
+	// itself consumes the label is observed dynamically by service_test.TestVerifC20Mount.
 	if s, ok := l[KPrefetch]; ok {
 		if ps, err := strconv.ParseInt(s, 10, 64); err == nil {
 			return ps
